@@ -370,9 +370,10 @@ func ledgerAfterGenesis(cfg *genesis.GenesisConfig, addrs []types.Address) (bal 
 	return bal, "ok"
 }
 
-// monitorAccepted: the sentence of the property evaluated on the REAL ledger produced from an ACCEPTED configuration:
-// per declared token the balances add up to TotalSupply (<= MaxSupply), the plasma contract holds exactly the sum of the
-// fusions in QSR, the pillar contract exactly the sum of the stakes in ZNN, the swap contract nothing.
+// monitorAccepted: the sentence of the property (= theorem check_genesis_sound) evaluated on the REAL ledger produced from
+// an ACCEPTED configuration: per declared token the balances add up to TotalSupply (<= MaxSupply, MaxSupply present), every
+// held token is declared, no amount is missing or negative, no address has two entries, the plasma contract holds exactly
+// the sum of the fusions in QSR, the pillar contract exactly the sum of the stakes in ZNN, the swap contract nothing.
 func monitorAccepted(c *Ctx, tag string, cfg *genesis.GenesisConfig) {
 	seen := map[types.Address]bool{}
 	var addrs []types.Address
@@ -416,8 +417,33 @@ func monitorAccepted(c *Ctx, tag string, cfg *genesis.GenesisConfig) {
 		if s.Cmp(t.TotalSupply) != 0 {
 			c.Fail("CheckGenesis accepted (%s) but ledger balances of %x add up to %v, declared TotalSupply %v [%s]", tag, t.TokenStandard[:], s, t.TotalSupply, encodeCfg(cfg))
 		}
-		if t.MaxSupply != nil && t.TotalSupply.Cmp(t.MaxSupply) > 0 {
+		if t.MaxSupply == nil {
+			c.Fail("CheckGenesis accepted (%s) token %x without MaxSupply [%s]", tag, t.TokenStandard[:], encodeCfg(cfg))
+		} else if t.TotalSupply.Cmp(t.MaxSupply) > 0 {
 			c.Fail("CheckGenesis accepted (%s) TotalSupply %v above MaxSupply %v for token %x [%s]", tag, t.TotalSupply, t.MaxSupply, t.TokenStandard[:], encodeCfg(cfg))
+		}
+	}
+	// every token somebody holds is declared (check_genesis_declared)
+	for z, v := range sum {
+		declared := false
+		for _, t := range cfg.TokenConfig.Tokens {
+			declared = declared || t.TokenStandard == z
+		}
+		if !declared && v.Sign() != 0 {
+			c.Fail("CheckGenesis accepted (%s) but the ledger holds %v of token %x, which TokenConfig does not declare [%s]", tag, v, z[:], encodeCfg(cfg))
+		}
+	}
+	// no balance list carries a missing or negative amount, no address two entries (check_genesis_entries_wellformed)
+	entries := map[types.Address]int{}
+	for _, b := range cfg.GenesisBlocks.Blocks {
+		entries[b.Address]++
+		if entries[b.Address] == 2 {
+			c.Fail("CheckGenesis accepted (%s) two genesis entries for address %x [%s]", tag, b.Address.Bytes(), encodeCfg(cfg))
+		}
+		for z, v := range b.BalanceList {
+			if v == nil || v.Sign() < 0 {
+				c.Fail("CheckGenesis accepted (%s) the amount %s of token %x for address %x [%s]", tag, gnAmt(v), z[:], b.Address.Bytes(), encodeCfg(cfg))
+			}
 		}
 	}
 	fused := big.NewInt(0)
@@ -699,7 +725,65 @@ var perturbations = []perturbation{
 		}
 		return false
 	}},
+	{"duplicate-contract-block", true, func(c *Ctx, cfg *genesis.GenesisConfig) bool {
+		// a second, identical entry for the plasma (pillar) contract, supply raised by it: each entry alone satisfies
+		// checkAccountBalance, the sums agree, the ledger keeps one of the two
+		addr := types.PlasmaContract
+		if c.R.Intn(2) == 0 {
+			addr = types.PillarContract
+		}
+		for _, b := range cfg.GenesisBlocks.Blocks {
+			if b.Address != addr {
+				continue
+			}
+			nb := &genesis.GenesisBlockConfig{Address: addr, BalanceList: map[types.ZenonTokenStandard]*big.Int{}}
+			nz := false
+			for z, v := range b.BalanceList {
+				nb.BalanceList[z] = new(big.Int).Set(v)
+				nz = nz || v.Sign() != 0
+			}
+			if !nz {
+				return false
+			}
+			for z, v := range nb.BalanceList {
+				for _, t := range cfg.TokenConfig.Tokens {
+					if t.TokenStandard == z {
+						t.TotalSupply.Add(t.TotalSupply, v)
+						t.MaxSupply.Add(t.MaxSupply, v)
+					}
+				}
+			}
+			cfg.GenesisBlocks.Blocks = append(cfg.GenesisBlocks.Blocks, nb)
+			return true
+		}
+		return false
+	}},
+	{"duplicate-empty-block", true, func(c *Ctx, cfg *genesis.GenesisConfig) bool {
+		// a second entry without balances for an address that has one: no sum changes, the ledger is the same — refused
+		// all the same since bf6e6a8 (one entry per address)
+		b := cfg.GenesisBlocks.Blocks[c.R.Intn(len(cfg.GenesisBlocks.Blocks))]
+		cfg.GenesisBlocks.Blocks = append(cfg.GenesisBlocks.Blocks, &genesis.GenesisBlockConfig{Address: b.Address, BalanceList: map[types.ZenonTokenStandard]*big.Int{}})
+		return true
+	}},
 	{"negative-balance", true, func(c *Ctx, cfg *genesis.GenesisConfig) bool {
+		if c.R.Intn(2) == 0 {
+			// an existing positive balance a of an ordinary account becomes -a, TotalSupply lowered by 2a: the signed sums
+			// agree, the ledger stores |-a| = a
+			for _, i := range c.R.Perm(len(cfg.GenesisBlocks.Blocks)) {
+				b := cfg.GenesisBlocks.Blocks[i]
+				if types.IsEmbeddedAddress(b.Address) {
+					continue
+				}
+				for _, t := range cfg.TokenConfig.Tokens {
+					if a, ok := b.BalanceList[t.TokenStandard]; ok && a.Sign() > 0 {
+						t.TotalSupply.Sub(t.TotalSupply, a)
+						t.TotalSupply.Sub(t.TotalSupply, a)
+						a.Neg(a)
+						return true
+					}
+				}
+			}
+		}
 		// two fresh user entries of -v and +v of one declared token: every sum the validators compute is unchanged
 		z := cfg.TokenConfig.Tokens[c.R.Intn(len(cfg.TokenConfig.Tokens))].TokenStandard
 		v := big.NewInt(1 + int64(c.R.Intn(1000)))
@@ -708,16 +792,62 @@ var perturbations = []perturbation{
 			&genesis.GenesisBlockConfig{Address: randAddr(c, 0), BalanceList: map[types.ZenonTokenStandard]*big.Int{z: v}})
 		return true
 	}},
+	{"nil-balance", true, func(c *Ctx, cfg *genesis.GenesisConfig) bool {
+		// a MISSING amount (nil pointer, `null` in a file) where the validators return an error instead of dereferencing it:
+		// in the entry of an ordinary account, or under a token the contract must not hold in a contract's entry
+		z := cfg.TokenConfig.Tokens[c.R.Intn(len(cfg.TokenConfig.Tokens))].TokenStandard
+		switch c.R.Intn(3) {
+		case 0:
+			cfg.GenesisBlocks.Blocks = append(cfg.GenesisBlocks.Blocks,
+				&genesis.GenesisBlockConfig{Address: randAddr(c, 0), BalanceList: map[types.ZenonTokenStandard]*big.Int{z: nil}})
+			return true
+		case 1:
+			for _, i := range c.R.Perm(len(cfg.GenesisBlocks.Blocks)) {
+				if b := cfg.GenesisBlocks.Blocks[i]; !types.IsEmbeddedAddress(b.Address) {
+					b.BalanceList[z] = nil // replaces the amount, or adds the key
+					return true
+				}
+			}
+			return false
+		default:
+			return editContractBlock(c, cfg, func(b *genesis.GenesisBlockConfig, cz types.ZenonTokenStandard) (*big.Int, bool) {
+				other := types.ZnnTokenStandard
+				if cz == types.ZnnTokenStandard {
+					other = types.QsrTokenStandard
+				}
+				b.BalanceList[other] = nil
+				return big.NewInt(0), true
+			})
+		}
+	}},
 	{"supply-above-max", true, func(c *Ctx, cfg *genesis.GenesisConfig) bool {
 		t := cfg.TokenConfig.Tokens[c.R.Intn(len(cfg.TokenConfig.Tokens))]
 		if t.TotalSupply.Sign() <= 0 {
 			return false
 		}
-		t.MaxSupply = new(big.Int).Sub(t.TotalSupply, big.NewInt(1))
+		// MaxSupply one below TotalSupply (the boundary), or far below, or zero
+		switch c.R.Intn(3) {
+		case 0:
+			t.MaxSupply = new(big.Int).Sub(t.TotalSupply, big.NewInt(1))
+		case 1:
+			t.MaxSupply = new(big.Int).Rsh(t.TotalSupply, 1)
+		default:
+			t.MaxSupply = big.NewInt(0)
+		}
+		return true
+	}},
+	{"nil-max-supply", true, func(c *Ctx, cfg *genesis.GenesisConfig) bool {
+		cfg.TokenConfig.Tokens[c.R.Intn(len(cfg.TokenConfig.Tokens))].MaxSupply = nil
 		return true
 	}},
 	// --- perturbations that change no sum: must stay accepted ---
 	{"permute-only", false, func(c *Ctx, cfg *genesis.GenesisConfig) bool { return true }},
+	{"supply-equals-max", false, func(c *Ctx, cfg *genesis.GenesisConfig) bool {
+		// the accepted side of the MaxSupply boundary
+		t := cfg.TokenConfig.Tokens[c.R.Intn(len(cfg.TokenConfig.Tokens))]
+		t.MaxSupply = new(big.Int).Set(t.TotalSupply)
+		return true
+	}},
 	{"zero-balance-entry", false, func(c *Ctx, cfg *genesis.GenesisConfig) bool {
 		b := cfg.GenesisBlocks.Blocks[2+c.R.Intn(len(cfg.GenesisBlocks.Blocks)-2)]
 		if b.Address == types.SwapContract || b.Address == types.PlasmaContract || b.Address == types.PillarContract {
@@ -730,6 +860,44 @@ var perturbations = []perturbation{
 		b.BalanceList[z] = big.NewInt(0)
 		return true
 	}},
+}
+
+// inconsistentKinds: perturbations after which, BY CONSTRUCTION, the balances the ledger would hold no longer add up to the
+// declared supplies / contract holdings (or a supply exceeds its maximum) — the clause of the property itself, no model
+// involved: such a configuration must be refused. The value says what is wrong.
+var inconsistentKinds = map[string]string{
+	"balance+1":                  "one balance raised by 1, declared supplies / fusions / stakes unchanged",
+	"balance-1":                  "one balance lowered by 1, declared supplies / fusions / stakes unchanged",
+	"drop-block":                 "an entry with a non-zero balance removed, declared supplies unchanged",
+	"fusion+-1":                  "one fusion amount changed by 1, plasma contract balance unchanged",
+	"add-fusion":                 "a fusion added, plasma contract balance unchanged",
+	"drop-fusion":                "a non-zero fusion removed, plasma contract balance unchanged",
+	"pillar-stake+-1":            "one pillar stake changed by 1, pillar contract balance unchanged",
+	"supply+-1":                  "one declared TotalSupply changed by 1, balances unchanged",
+	"swap-holds":                 "the swap contract holds 5 of a native token",
+	"contract-token-missing":     "the plasma/pillar contract's entry does not list the token backing the fusions/stakes",
+	"contract-balance-shift":     "the plasma/pillar contract's balance differs by 1 from the fusions/stakes (supply adjusted)",
+	"drop-plasma-contract-block": "non-zero fusions but the plasma contract has no genesis entry: it holds nothing",
+	"drop-pillar-contract-block": "non-zero pillar stakes but the pillar contract has no genesis entry: it holds nothing",
+	"duplicate-user-block":       "two entries for one address counted twice in TotalSupply: the ledger keeps one balance per (address, token)",
+	"duplicate-contract-block":   "two entries for one contract counted twice in TotalSupply: the ledger keeps one balance per (address, token)",
+	"negative-balance":           "a negative amount offsets a positive one in the declared TotalSupply: the ledger stores its absolute value",
+	"supply-above-max":           "a declared TotalSupply above the token's MaxSupply",
+}
+
+// directedKinds: run in rotation on EVERY configuration (two per configuration) in addition to the random draws, so that
+// each of the repaired gaps of the validators (F13a no contract entry, F13b duplicate entry, F13e negative / missing
+// amount, F13c MaxSupply) and the accepted side of the new checks is exercised on every run whatever the seed.
+var directedKinds = []string{"drop-plasma-contract-block", "duplicate-user-block", "negative-balance", "supply-above-max",
+	"drop-pillar-contract-block", "nil-balance", "duplicate-contract-block", "nil-max-supply", "supply-equals-max", "duplicate-empty-block"}
+
+func perturbationByName(name string) perturbation {
+	for _, p := range perturbations {
+		if p.name == name {
+			return p
+		}
+	}
+	panic("no perturbation " + name)
 }
 
 // editContractBlock applies f to the plasma (QSR) or pillar (ZNN) contract entry; f returns the change of the token's
@@ -786,6 +954,71 @@ func dropContractBlock(cfg *genesis.GenesisConfig, addr types.Address) bool {
 	return false
 }
 
+// nullKinds: one amount of a consistent configuration set to nil; json.Marshal writes null, the decoder leaves the pointer nil
+var nullKinds = []struct {
+	name string
+	f    func(c *Ctx, cfg *genesis.GenesisConfig) bool
+}{
+	{"fusion-amount", func(c *Ctx, cfg *genesis.GenesisConfig) bool {
+		if len(cfg.PlasmaConfig.Fusions) == 0 {
+			return false
+		}
+		cfg.PlasmaConfig.Fusions[c.R.Intn(len(cfg.PlasmaConfig.Fusions))].Amount = nil
+		return true
+	}},
+	{"pillar-amount", func(c *Ctx, cfg *genesis.GenesisConfig) bool {
+		cfg.PillarConfig.Pillars[c.R.Intn(len(cfg.PillarConfig.Pillars))].Amount = nil
+		return true
+	}},
+	{"total-supply", func(c *Ctx, cfg *genesis.GenesisConfig) bool {
+		cfg.TokenConfig.Tokens[c.R.Intn(len(cfg.TokenConfig.Tokens))].TotalSupply = nil
+		return true
+	}},
+	{"max-supply", func(c *Ctx, cfg *genesis.GenesisConfig) bool {
+		cfg.TokenConfig.Tokens[c.R.Intn(len(cfg.TokenConfig.Tokens))].MaxSupply = nil
+		return true
+	}},
+	{"user-balance", func(c *Ctx, cfg *genesis.GenesisConfig) bool {
+		for _, i := range c.R.Perm(len(cfg.GenesisBlocks.Blocks)) {
+			b := cfg.GenesisBlocks.Blocks[i]
+			if types.IsEmbeddedAddress(b.Address) {
+				continue
+			}
+			for z := range b.BalanceList {
+				b.BalanceList[z] = nil
+				return true
+			}
+		}
+		return false
+	}},
+	{"contract-balance", func(c *Ctx, cfg *genesis.GenesisConfig) bool {
+		// the amount the plasma / pillar contract is REQUIRED to hold is null: checkAccountBalance compares with nil
+		addr, z := types.PlasmaContract, types.QsrTokenStandard
+		if c.R.Intn(2) == 0 {
+			addr, z = types.PillarContract, types.ZnnTokenStandard
+		}
+		for _, b := range cfg.GenesisBlocks.Blocks {
+			if b.Address == addr {
+				b.BalanceList[z] = nil
+				return true
+			}
+		}
+		return false
+	}},
+	{"swap-amount", func(c *Ctx, cfg *genesis.GenesisConfig) bool {
+		if len(cfg.SwapConfig.Entries) == 0 {
+			return false
+		}
+		e := cfg.SwapConfig.Entries[c.R.Intn(len(cfg.SwapConfig.Entries))]
+		if c.R.Intn(2) == 0 {
+			e.Znn = nil
+		} else {
+			e.Qsr = nil
+		}
+		return true
+	}},
+}
+
 // readFileCase: the path a node takes — genesis.ReadGenesisConfigFromFile on the JSON file. It must return exactly one
 // of (genesis, nil) / (nil, error); a genesis iff CheckGenesis accepts; the same hash as the in-process construction.
 func readFileCase(c *Ctx, tmp, tag string, raw []byte, wantOK bool, wantHash string) {
@@ -809,14 +1042,14 @@ func readFileCase(c *Ctx, tmp, tag string, raw []byte, wantOK bool, wantHash str
 	switch {
 	case panicked:
 		c.Hit("readfile:panic")
-		c.Fail("ReadGenesisConfigFromFile panicked (%s)", tag)
+		c.Fail("ReadGenesisConfigFromFile panicked (%s) file: %s", tag, raw)
 	case gen == nil && err == nil:
 		c.Hit("readfile:nil-nil")
-		c.Fail("ReadGenesisConfigFromFile returned neither a genesis nor an error (%s): the caller reports \"Loaded a valid genesis config\"", tag)
+		c.Fail("ReadGenesisConfigFromFile returned neither a genesis nor an error (%s): the caller reports \"Loaded a valid genesis config\" file: %s", tag, raw)
 	case gen != nil && err == nil:
 		c.Hit("readfile:genesis")
 		if !wantOK {
-			c.Fail("ReadGenesisConfigFromFile accepted a configuration CheckGenesis refuses (%s)", tag)
+			c.Fail("ReadGenesisConfigFromFile accepted a configuration that is inconsistent / that CheckGenesis refuses (%s) file: %s", tag, raw)
 		} else if h := hex.EncodeToString(gen.GetGenesisMomentum().Hash.Bytes()); wantHash != "" && h != wantHash {
 			c.Fail("genesis hash read from file %s differs from in-process construction %s (%s)", h, wantHash, tag)
 		}
@@ -1051,8 +1284,12 @@ func init() {
 			}
 			// 3. single-entry perturbations: real verdict vs model verdict; a changed sum must be rejected; an accepted
 			//    configuration must yield a ledger that satisfies the property's sentence
+			pts := make([]perturbation, 0, nPert+2)
 			for j := 0; j < nPert; j++ {
-				pt := perturbations[c.R.Intn(len(perturbations))]
+				pts = append(pts, perturbations[c.R.Intn(len(perturbations))])
+			}
+			pts = append(pts, perturbationByName(directedKinds[(2*k)%len(directedKinds)]), perturbationByName(directedKinds[(2*k+1)%len(directedKinds)]))
+			for j, pt := range pts {
 				pc := permuteCfg(c, cfg)
 				if !pt.f(c, pc) {
 					c.Hit("perturb-skip:" + pt.name)
@@ -1061,15 +1298,22 @@ func init() {
 				v := checkReal(pc)
 				c.Emit("gen-check %s | %s", encodeCfg(pc), v)
 				c.Hit("perturb:" + pt.name + ":" + strings.Fields(v)[0])
+				if j >= nPert {
+					c.Hit("directed:" + pt.name + ":" + strings.Fields(v)[0])
+				}
 				if v == "panic" || strings.HasPrefix(v, "reject none") {
-					c.Fail("CheckGenesis %s on perturbation %s: %s", v, pt.name, encodeCfg(pc))
+					c.Fail("CheckGenesis %s on perturbation %s of %s: %s", v, pt.name, id, encodeCfg(pc))
 					continue
 				}
 				if !pt.changes && v != "ok" {
-					c.Fail("perturbation %s changes no sum but is refused (%s): %s", pt.name, v, encodeCfg(pc))
+					c.Fail("perturbation %s of %s changes no sum but is refused (%s): %s", pt.name, id, v, encodeCfg(pc))
 				}
 				if v == "ok" {
-					// accepted: the real ledger must satisfy the statement (this is what exposes accepted-but-inconsistent configs)
+					// the clause itself: an inconsistent configuration is refused (never accepted) ...
+					if what, bad := inconsistentKinds[pt.name]; bad {
+						c.Fail("inconsistent configuration accepted by CheckGenesis (perturbation %s of %s: %s) [%s]", pt.name, id, what, encodeCfg(pc))
+					}
+					// ... and whatever is accepted yields a real ledger that satisfies the statement (says what is off, and by how much)
 					monitorAccepted(c, "perturbation "+pt.name+" of "+id, pc)
 				}
 			}
@@ -1086,9 +1330,34 @@ func init() {
 						readFileCase(c, tmp, "perturbation "+pt.name+" of "+id, rawp, v == "ok", "")
 					}
 				}
-				field := []string{"amount", "Amount", "totalSupply", "znn"}[c.R.Intn(4)]
+				// files with a MISSING amount (field dropped from the text / written as null), in rotation so that every kind
+				// comes up on every run: the validators dereference most of them — whatever happens inside, the caller must
+				// get (nil, error): never a genesis, never (nil, nil), never a panic
+				fields := []string{"amount", "Amount", "totalSupply", "znn", "maxSupply", "qsr"}
+				field := fields[(k/4)%len(fields)]
 				if rawm, ok := dropFirstJSONField(raw, field); ok {
+					c.Hit("readfile-missing:" + field)
 					readFileCase(c, tmp, "missing-field "+field+" of "+id, rawm, false, "")
+				} else {
+					c.Hit("readfile-missing-skip:" + field)
+				}
+				nk := nullKinds[(k/4)%len(nullKinds)]
+				nc := cloneCfg(cfg)
+				if nk.f(c, nc) {
+					rawn, _ := json.Marshal(nc)
+					c.Hit("readfile-null:" + nk.name)
+					readFileCase(c, tmp, "null-field "+nk.name+" of "+id, rawn, false, "")
+				} else {
+					c.Hit("readfile-null-skip:" + nk.name)
+				}
+				// the four repaired gaps through the file as well (the path a node takes)
+				dk := perturbationByName([]string{"drop-plasma-contract-block", "duplicate-user-block", "negative-balance", "supply-above-max",
+					"drop-pillar-contract-block", "duplicate-contract-block"}[(k/4)%6])
+				dc := permuteCfg(c, cfg)
+				if dk.f(c, dc) {
+					rawd, _ := json.Marshal(dc)
+					c.Hit("readfile-inconsistent:" + dk.name)
+					readFileCase(c, tmp, "perturbation "+dk.name+" of "+id, rawd, false, "")
 				}
 			}
 			// 4. database created with A, node started with B != A: refused; with A again (also permuted): starts
